@@ -9,7 +9,7 @@ import ast
 
 from ..core.flow import (call_name, calls_in, node_calls, node_binds, node_exprs, propagate_unverified,
                          single_assignments, target_names, is_name, same_expr)
-from ..core.loader import AnalysisError, short, own_nodes
+from ..core.loader import AnalysisError, short, own_nodes, norm
 from ..core.report import where
 
 TECHNIQUE = 'CFG must-pass-through (dominance) analysis; template-string abstract interpretation of the opcode dispatch chains; table comparison against an EVM reference'
@@ -217,7 +217,7 @@ def rule_a(ctx, out):
         for c in conj:
             o = origin(c)
             if isinstance(o, tuple) and isinstance(o[1], ast.Call) and call_name(o[1]) == vf.name and o[2] == 0:
-                has_verify = _verify_args_ok(o[1], origin, params)
+                has_verify = _verify_args_ok(o[1], origin, params, ctx, f)
             if isinstance(o, ast.Compare) and len(o.ops) == 1 and isinstance(o.ops[0], ast.Eq):
                 l, rr = origin(o.left), origin(o.comparators[0])
                 for meth, which in (("instructions_initial_bytecode", "init"), ("instructions_final_bytecode", "final")):
@@ -243,22 +243,39 @@ def rule_a(ctx, out):
     _verify_block_rule(ctx, vf, out)
 
 
-def _verify_args_ok(call, origin, params):
-    """verify_block_from_list_of_sfs(old_sfs, new_sfs): args come from the SFS of old and new block."""
+def _verify_args_ok(call, origin, params, ctx=None, f=None):
+    """verify(old_sfs, new_sfs): argument i derives from block parameter i alone (of the two blocks), through a call that computes
+    the specification of that block (compute_original_sfs_with_simplifications, directly or inside a helper)."""
     if len(call.args) < 2:
         return False
-    seen = []
-    for a in call.args[:2]:
-        o = origin(a)
-        # X["syrup_contract"] where X is component 0 of compute_original_sfs_with_simplifications(block, ...)
-        if isinstance(o, ast.Subscript):
-            o = origin(o.value)
-        if isinstance(o, tuple) and isinstance(o[1], ast.Call) and call_name(o[1]) == "compute_original_sfs_with_simplifications" \
-                and o[1].args and isinstance(o[1].args[0], ast.Name):
-            seen.append(o[1].args[0].id)
-        else:
+    from ..core.flow import single_assignments
+    sa_ = single_assignments(f.node)
+    sfs_fn = ctx.func(f"{GASOL}.compute_original_sfs_with_simplifications")
+
+    def chain(e, depth=0):
+        """expressions the value of e is computed from (following single local assignments)"""
+        out_ = [e]
+        if depth < 6:
+            for x in ast.walk(e):
+                if isinstance(x, ast.Name) and x.id not in f.params:
+                    for (_, v, _idx) in sa_.get(x.id, []):
+                        out_ += chain(v, depth + 1)
+        return out_
+    for i, a in enumerate(call.args[:2]):
+        exprs = chain(a)
+        blocks = {x.id for e in exprs for x in ast.walk(e) if isinstance(x, ast.Name)} & set(params[:2])
+        if blocks != {params[i]}:
             return False
-    return seen == params[:2]
+        computes = False
+        for e in exprs:
+            for c in ast.walk(e):
+                if isinstance(c, ast.Call):
+                    for t in ctx.r.resolve_call(f, c):
+                        if t.qual == sfs_fn.qual or sfs_fn.qual in ctx.r.reachable([t], by_name=False):
+                            computes = True
+        if not computes:
+            return False
+    return True
 
 
 def _verify_block_rule(ctx, vf, out):
